@@ -922,7 +922,7 @@ FOCUS = {
     "C19": [("fbsize", 8)],
     "C10": [("dialorder", 12), ("dnsdial", 10)],
     # static wiring only
-    "C02": [], "C16": [], "C17": [], "C20": [],
+    "C02": [], "C16": [], "C17": [], "C20": [], "C03": [],
     None: [(f, 4) for f in FAMILIES],
 }
 
